@@ -33,7 +33,10 @@ def enum_adt(u, self_ty):
 def fold_engine(prog, unit):
     def inl(n, r):
         return r.startswith(("scpi::parser::tokenizer::", "scpi::option::ScpiEnum::")) or n.startswith(("scpi::parser::tokenizer::", "scpi::option::ScpiEnum::")) or "as scpi::option::ScpiEnum>" in r or "as option::ScpiEnum>" in r
-    return fdai.Engine(prog, unit, inline=inl, models=M.FOLD_MODELS, loop_limit=60, max_depth=12)
+    # (private helpers of the response module are analysed in place)
+    from . import dispatch as D_
+    _resp = D_.inline_inherent(("scpi::parser::response::", "scpi::parser::format::"))
+    return fdai.Engine(prog, unit, inline=lambda n, r: inl(n, r) or _resp(n, r), models=M.FOLD_MODELS, loop_limit=60, max_depth=12)
 
 
 def response_text(prog, unit, adt_path, variant, discr, nfields):
@@ -67,7 +70,7 @@ def response_text(prog, unit, adt_path, variant, discr, nfields):
         ok = True
         for e in r.trace:
             if e.kind == "call" and e.name.split("::")[-1] in ("push_str", "push_ascii", "push_byte"):
-                b = C_bytes(e.args[1])
+                b = C_bytes(e.args[1]) if e.args[1][0] != "sym" else None      # (bytes inside the description of an unknown value are not the value)
                 if b is None and e.args[1][0] == "K":
                     b = bytes([e.args[1][1]])
                 if b is None:
